@@ -36,8 +36,13 @@ def main():
     faulthandler.dump_traceback_later(deadline * 3 + 90, exit=True)
     rec = core.set_recorder(core.Recorder(prop))
     cfg = core.Cfg(prop, tier, seed, shard, nshards, deadline)
+    from . import coverage
+
+    cov_on = coverage.start(load.REPO)
     try:
         mod.run(rec, cfg)
+        if cov_on:
+            rec.notes["functions_executed"] = coverage.stop()
         if shard == 0 and not os.environ.get("VERIF_NO_W0"):
             from . import attach, w0
 
